@@ -70,6 +70,12 @@ ASSUMPTIONS = [
     "features.dimension() called by the ImplementationBase constructor on a SUPPLIED features callback is not "
     "counted as the method invoking an undeclared callback (it is reported in the evidence)",
     "over-declaration (StochasticProximityEmbedding declares features it never reads) does not contradict C13",
+    "an outcome that is not an embedding (a documented exception with its message, a matrix holding NaN) is compared "
+    "like an embedding: every call form must end the same way (duplicates, overflowing magnitudes, library defaults "
+    "that do not fit the data set, rank-deficient covariance when there are more features than samples)",
+    "all runs are single-threaded (OMP_NUM_THREADS=1, omp_set_num_threads(1)): with several threads tapkee appends sparse "
+    "triplets inside omp critical sections in thread order, so bitwise equality of two runs is not even expected of "
+    "one and the same call form; thread counts are outside what this check compares",
 ]
 
 METHODS = ["KernelLocallyLinearEmbedding", "NeighborhoodPreservingEmbedding", "KernelLocalTangentSpaceAlignment",
@@ -106,6 +112,10 @@ def gen_dataset(rng, kind, n, dim):
             # a large common offset relative to the spread (2^20 against +-7), still dyadic: every product, squared
             # difference and their sums over <= 64 features stay below 2^53, so the hand-written loops are exact
             pts = [[float(rng.randint(-7, 7) + 1048576) for _ in range(dim)] for _ in range(n)]
+        elif kind == "huge":
+            # finite magnitudes whose squares overflow binary64 (kernel values and squared distances are +-inf / NaN):
+            # whatever a method does with them (an exception, a matrix of NaN), every call form must do the same
+            pts = [[rng.uniform(-1.0, 1.0) * 1e155 * rng.choice([1.0, 1.0, 1e-155]) for _ in range(dim)] for _ in range(n)]
         elif kind == "dups":
             # exact duplicate samples inside otherwise generic (dyadic) data: zero distances, equal kernel rows
             base = [[float(rng.randint(-7, 7)) for _ in range(dim)] for _ in range(n)]
@@ -138,8 +148,8 @@ def add_value_tables(rng, ds):
     squared distance, so that K(a,a) - 2 K(a,b) + K(b,b) stays positive (KernelDistance takes its square root)."""
     n, dim = ds["N"], ds["D"]
     pts = [[float.fromhex(v) for v in ds["x"][i * dim:(i + 1) * dim]] for i in range(n)]
-    d2 = [[sum((a - b) ** 2 for a, b in zip(pts[i], pts[j])) for j in range(n)] for i in range(n)]
-    mind2 = min([d2[i][j] for i in range(n) for j in range(n) if i != j and d2[i][j] > 0.0] or [1.0])
+    d2 = [[sum((a - b) * (a - b) for a, b in zip(pts[i], pts[j])) for j in range(n)] for i in range(n)]
+    mind2 = min([d2[i][j] for i in range(n) for j in range(n) if i != j and 0.0 < d2[i][j] < float("inf")] or [1.0])
     ktab, dtab = [], []
     for i in range(n):
         for j in range(n):
@@ -882,7 +892,9 @@ def plan(ctx, tier, rng, extra_search=False):
                  ("offset", 16, 3, {"nm": "covertree", "em": "dense", "reduced": 1, "maxit": 12}),
                  ("dups", 18, 3, {"nm": "brute", "em": "dense", "reduced": 1, "maxit": 12, "perm": 1}),
                  # every keyword but method and target dimension left to the library's defaults; ties (half-integer lattice)
-                 ("lattice", 24, 3, {"reduced": 1, "maxit": 12, "min": 1, "perm": 1})]
+                 ("lattice", 24, 3, {"reduced": 1, "maxit": 12, "min": 1, "perm": 1}),
+                 # magnitudes whose squares overflow: the same exception / the same NaN matrix from every call form
+                 ("huge", 16, 3, {"nm": "covertree", "em": "dense", "reduced": 1, "maxit": 12})]
     else:
         specs = [("dyadic", 18, 3, {"nm": "brute", "em": "dense"}),
                  ("generic", 20, 4, {"nm": "covertree", "em": "dense", "speg": 0}),
@@ -910,7 +922,9 @@ def plan(ctx, tier, rng, extra_search=False):
                       ("offset", 20, 4, {"nm": "vptree", "em": "dense"}),
                       ("dups", 22, 2, {"nm": "covertree", "em": "dense", "speg": 0, "perm": 1}),
                       ("dups", 16, 20, {"nm": "vptree", "em": "dense", "reduced": 1}),
-                      ("generic", 100, 3, {"reduced": 1, "min": 1, "perm": 1})]
+                      ("generic", 100, 3, {"reduced": 1, "min": 1, "perm": 1}),
+                      ("huge", 18, 4, {"nm": "vptree", "em": "dense", "reduced": 1, "maxit": 12, "perm": 1}),
+                      ("huge", 14, 20, {"nm": "brute", "em": "randomized", "reduced": 1, "maxit": 12})]
         if extra_search:
             specs = specs[2:]
     out = []
@@ -1133,7 +1147,13 @@ def _run(ctx, restore):
              "compared with the same tables handed to tapkee as precomputed matrices (exact declared subset x both entries, "
              "two full orders, tapkee::embed directly, a sequence of objects); a third data set of two separated clusters "
              "(the neighbour graph is disconnected at the requested k, so the connectivity retry runs) with a reduced list "
-             "of forms.  Once per data set every adapter class is called directly for all ordered pairs.  Each result is compared "
+             "of forms (reference, eigen callbacks through the chain and through tapkee::embed, every backing once in a full "
+             "order, the exact declared chains, objects, value tables); with the same reduced list: MORE FEATURES THAN "
+             "SAMPLES (16 samples x 24 features: the feature matrix is tall), as many features as samples (17 x 17), a large "
+             "common offset (2^20 against a spread of +-7, dyadic), exact duplicate samples, every keyword but method / target "
+             "dimension / max_iteration / squishing_rate left to the library defaults (half-integer lattice: ties), magnitudes "
+             "whose squares overflow (1e155).  On half of the data sets the integers of the index sequences (families U, Y) "
+             "are PERMUTED as well as shifted, so that the order of the objects' values says nothing about positions.  Once per data set every adapter class is called directly for all ordered pairs.  Each result is compared "
              "bitwise with the reference when the chain supplies the declared callbacks, the 12 call counters, the "
              "object-to-index / index-to-object / not-an-element / adapter-contract counters are checked, and the extracted model's predicted outcome and allowed-call set are "
              "compared.  non-trivial = a chain that returned an embedding bitwise equal to the reference; distinct by "
